@@ -32,13 +32,14 @@ def log(*a):
 
 
 class Lock:
-    def __init__(self, name):
+    def __init__(self, name, shared=False):
         os.makedirs(CACHE, exist_ok=True)
         self.path = os.path.join(CACHE, name + ".lock")
+        self.shared = shared
 
     def __enter__(self):
-        self.f = open(self.path, "w")
-        fcntl.flock(self.f, fcntl.LOCK_EX)
+        self.f = open(self.path, "a")
+        fcntl.flock(self.f, fcntl.LOCK_SH if self.shared else fcntl.LOCK_EX)
         return self
 
     def __exit__(self, *a):
@@ -204,8 +205,10 @@ def run_model(requests, nproc=None):
             lines = lines + ["MODEL-CRASH " + r.stderr[-200:].replace("\n", " ")] * (len(chunk) - len(lines))
         return lines
 
-    with ThreadPoolExecutor(nproc) as ex:
-        outs = list(ex.map(one, chunks))
+    # shared lock: a concurrent `lake build` (exclusive) must not relink the driver while it is answering
+    with Lock("lake", shared=True):
+        with ThreadPoolExecutor(nproc) as ex:
+            outs = list(ex.map(one, chunks))
     res = [None] * n
     for i, o in enumerate(outs):
         res[i::nproc] = o
